@@ -6,7 +6,7 @@ out=seeded/RESULTS.tsv
 : > $out
 for d in seeded/C*/; do
   id=$(basename $d)
-  for p in $d/patch*.diff; do
+  for p in $d/*patch*.diff; do
     r=$(python3 tools/seedrun.py $p $id 2>&1)
     code=$(echo "$r" | grep -o "exit=[0-9]*" | head -1 | cut -d= -f2)
     if [ "$code" = "0" ]; then verdict=MISSED
